@@ -248,8 +248,9 @@ def _exec(sched, seed, topo):
             h.advance_time_and_run(secs)
             pending = int(m.playfield.num_balls_requested)
             idle = all(m.ball_devices[d].state == 'idle' for d in DEVS)
+            held = sum(len(w.at(d)) for d in w.HOLDING)
             w.log(op='rest', known=int(m.ball_controller.num_balls_known), idle=bool(idle), pending=pending,
-                  states=[str(m.ball_devices[d].state) for d in DEVS])
+                  states=[str(m.ball_devices[d].state) for d in DEVS], _over=len(w.at('pf')) - min(w.want, 3 - held))
 
         for si, s in enumerate(sched):
             op = s['op']
@@ -371,6 +372,12 @@ def run_world(ctx):
             f.write('---- MODULE BallWorldTraceT ----\nEXTENDS BallWorldTrace, BallWorldMCDefs\n====\n')
         v = tlc.validate_traces(wd, 'BallWorldTraceT', 'Trace.cfg', traces)
         ctx.add_trace_verdict('BallWorldTrace(%s)' % topo, v, len(traces))
+        over = [i for i, t in enumerate(traces) if any(e.get('op') == 'rest' and e.get('_over', 0) > 0 for e in t['ev'])]
+        if over:
+            # outside both statements (every request was served, counts agree): noted, not judged
+            ctx.log('observation (%s): %d executions end with more balls on the playfield than were requested' % (topo, len(over)))
+            ctx.coverage.setdefault('observations', []).append('%s: %d of %d executions over-deliver (a drained ball is ejected '
+                                                               'again without a request)' % (topo, len(over), len(traces)))
         if topo == 'balls':
             ctx.sample({'kind': 'ball-world-trace', 'topology': topo, 'trace': traces[0]['ev'][:12]})
         base = len(alljobs)
